@@ -539,6 +539,77 @@ def base_spec(which, tier):
     return dict(cases)[which]
 
 
+def enum_pairs():
+    """Every two declared constants of every enumeration of the API, by NAME
+    (so that aliases show): two objects that differ only in that constant
+    are not deep_eq, two that agree are.  Returns (n, bad)."""
+    import uuid as uuidlib
+
+    import gtirb as g
+
+    u = [uuidlib.UUID(int=0xE0000 + i) for i in range(8)]
+    A = g.SymbolicExpression.Attribute
+    L, T = g.Edge.Label, g.Edge.Type
+
+    def with_attr(a, two=False):
+        y = g.Symbol("s", uuid=u[0])
+        y2 = g.Symbol("t", uuid=u[1])
+        b = g.ByteInterval(size=8, uuid=u[2])
+        b.symbolic_expressions[0] = (
+            g.SymAddrAddr(1, 2, y, y2, {a}) if two
+            else g.SymAddrConst(3, y, {a}))
+        return b
+
+    def with_edge_type(t):
+        ir = g.IR(uuid=u[3])
+        m = g.Module(name="m", uuid=u[4], ir=ir)
+        p, q = g.ProxyBlock(uuid=u[5], module=m), g.ProxyBlock(uuid=u[6],
+                                                               module=m)
+        ir.cfg.add(g.Edge(p, q, L(t, True, False)))
+        return ir
+
+    families = [
+        ("SymbolicExpression.Attribute/SymAddrConst", A, with_attr),
+        ("SymbolicExpression.Attribute/SymAddrAddr", A,
+         lambda a: with_attr(a, True)),
+        ("Edge.Type", T, with_edge_type),
+        ("Module.ISA", g.Module.ISA,
+         lambda v: g.Module(name="m", uuid=u[4], isa=v)),
+        ("Module.FileFormat", g.Module.FileFormat,
+         lambda v: g.Module(name="m", uuid=u[4], file_format=v)),
+        ("Module.ByteOrder", g.Module.ByteOrder,
+         lambda v: g.Module(name="m", uuid=u[4], byte_order=v)),
+        ("Section.Flag", g.Section.Flag,
+         lambda v: g.Section(name="s", uuid=u[7], flags={v})),
+        ("CodeBlock.DecodeMode", g.CodeBlock.DecodeMode,
+         lambda v: g.CodeBlock(size=1, uuid=u[7], decode_mode=v)),
+    ]
+    n = 0
+    bad = []
+    for fam, cls, mk in families:
+        names = list(cls.__members__)
+        for i, a in enumerate(names):
+            for b in names[i:]:
+                n += 1
+                try:
+                    x, y = mk(cls.__members__[a]), mk(cls.__members__[b])
+                    got = (x.deep_eq(y), y.deep_eq(x))
+                except Exception as e:  # noqa
+                    bad.append(("C18/enum-constant-object-raises:%s:%s"
+                                % (fam, type(e).__name__),
+                                "%s vs %s: %r" % (a, b, e), "enum-pairs"))
+                    continue
+                want = a == b
+                if got != (want, want):
+                    bad.append(("C18/deep_eq-%s-for-%s-constants:%s"
+                                % (got[0] and got[1], "equal" if want
+                                   else "distinct", fam),
+                                "objects differing only in %s.%s vs %s.%s: "
+                                "deep_eq %r" % (fam, a, fam, b, got),
+                                "enum-pairs"))
+    return n, bad
+
+
 def run(ctx):
     bases = ["rich"]
     shapes = [l for l, s in ircases.all_cases(ctx.tier, double=False)
@@ -564,6 +635,9 @@ def run(ctx):
         n_hist += k
         bad += b
     n += n_hist
+    n_enum, b = enum_pairs()
+    n += n_enum
+    bad += b
     c01.report(ctx, bad)
     cov = {
         "states": sum(sizes.values()),
@@ -571,6 +645,7 @@ def run(ctx):
         "traces_validated_against_impl": n,
         "variants_per_base": sizes,
         "compare_edit_compare_calls": n_hist,
+        "enum_constant_pairs": n_enum,
         "exhaustive": True,
         "bound": "all ordered pairs of the variants of the 22-node base IR "
         "(every single compared-field perturbation, every uncompared change); "
@@ -589,6 +664,13 @@ def run(ctx):
 def replay(doc):
     from gtirb.version import PROTOBUF_VERSION as PV
 
+    if doc["case"] == "enum-pairs":
+        n, bad = enum_pairs()
+        for s, d, _ in bad[:10]:
+            print(s, "--", d)
+        hit = any(s == doc["signature"] for s, _, _ in bad)
+        print("reproduced" if hit else "NOT reproduced")
+        return 1 if hit else 0
     vs = variants(irgen.rich_base(), ircases.enum_numbers())
     labels = [l for l, _ in vs]
     i = labels.index(doc["case"]) if doc["case"] in labels else 0
